@@ -57,6 +57,9 @@ Tail0(name, h) ==
     [] name = "ahead_pv1"     -> NH \o VotesBy(Prevote, 1, V2, B)
     [] name = "block_polka"   -> NH \o <<ElProp(0, A, -1)>> \o PartsAll(A) \o VotesBy(Prevote, 0, V3, A)
     [] name = "block_polka_pc2" -> NH \o <<ElProp(0, A, -1)>> \o PartsAll(A) \o VotesBy(Prevote, 0, V3, A) \o VotesBy(Precommit, 0, V2, A)
+    \* precommits of different values in one vote set (the fourth validator precommits nil): what VoteSetBits must tell apart
+    [] name = "block_pc_mixed" -> NH \o <<ElProp(0, A, -1)>> \o PartsAll(A) \o VotesBy(Prevote, 0, V3, A)
+                                     \o <<ElVote(Precommit, 0, ValSeq[1], A), ElVote(Precommit, 0, ValSeq[4], Nil)>>
     [] name = "prop_polka"    -> NH \o <<ElProp(0, A, -1)>> \o VotesBy(Prevote, 0, V3, A)
     [] name = "polka_noprop"  -> NH \o VotesBy(Prevote, 0, V3, A)
     [] name = "nilpolka"      -> NH \o <<ElTo("Propose", 0)>> \o VotesBy(Prevote, 0, V3, Nil)
@@ -93,7 +96,7 @@ Tail0(name, h) ==
 \*   "N0a" round 0: nil votes; round 1: B proposed, votes for B
 \*   "N0b" rounds 0 and 1: nil votes; round 2
 WorldsOf(tail) ==
-     (IF tail \in {"newheight", "propose", "prop", "prop_part0", "block", "block_pv2", "block_pv2_wait", "block_polka", "block_polka_pc2", "prop_polka",
+     (IF tail \in {"newheight", "propose", "prop", "prop_part0", "block", "block_pv2", "block_pv2_wait", "block_polka", "block_polka_pc2", "block_pc_mixed", "prop_polka",
                    "polka_noprop", "commit_noblock", "commit_part0", "decided", "decided_strag", "decided_eq", "eq_nil"} THEN {"A0"} ELSE {})
 \cup (IF tail \in {"newheight", "propose", "prop", "prop_part0", "block", "block_pv2", "block_pv2_wait", "block_polka", "prop_polka", "polka_noprop",
                    "r1v", "r1v_reprop", "r1v_reprop_block", "r1_reprop_nopol"} THEN {"P0"} ELSE {})
